@@ -1,5 +1,6 @@
 import LunarVerif.Proofs.C10
 import LunarVerif.Proofs.C10Plugin
+import LunarVerif.Generated.C18Facts
 /-!
 # C10 — Policy-mode delayed queue releases waiters in order and never strands one
 
@@ -266,5 +267,36 @@ example : ∃ s es, run ⟨1, 1000, 1⟩ (init ⟨1, 1000, 1⟩ 10000) [.enq 0 5
       = some (s, es) ∧ waitingCount s.reqs = 1 ∧ es.getLast? = some (.enq 0 50 .full []) := by
   refine ⟨_, _, rfl, ?_⟩
   decide
+
+end LunarVerif.C10
+
+/-! ## Step granularity of the transition system, tied to the source
+
+The labels `enq` and `roll` of `Model/C10.lean` are each ONE locked section of `DelayedPriorityQueue`.
+`Generated/C18Facts.lean` is rewritten from /repo's working tree on every run (per function: every access of a
+field, the locks held, the number of the critical section it lies in), so this `decide` re-checks what
+`in_memory_delayed_priority_queue.go` says now. -/
+namespace LunarVerif.C10
+
+/-- accesses of the window counter, the window end and the heap inside function `fn` (and the helpers it calls
+    with the lock held are attributed to `fn`'s section by the extractor) -/
+def dpqAccesses (fn : String) (fields : List String) : List LunarVerif.C18.Access :=
+  LunarVerif.C18.Generated.facts.filter fun a =>
+    a.struct == "queue.DelayedPriorityQueue" && a.func == fn && !a.init && fields.contains a.field
+
+/-- `Enqueue` reads and writes the window counter, reads the window end and uses the heap inside ONE exclusive
+    section (decide-and-enqueue cannot be separated by another caller or by the roll-over); the roll-over pass
+    (`process`) updates the counter and serves the heap inside ONE exclusive section. -/
+theorem enqueue_and_rollover_are_single_sections :
+    ((dpqAccesses "Enqueue" ["currentWindowCounter"]).any (·.write)
+      && (dpqAccesses "Enqueue" ["queue"]).any (fun _ => true)
+      && LunarVerif.C18.oneRegion (dpqAccesses "Enqueue" ["currentWindowCounter", "currentWindowEndTime", "queue"])
+      && (dpqAccesses "Enqueue" ["currentWindowCounter", "currentWindowEndTime", "queue"]).all
+           (fun a => a.locks.any fun l => l.name == "mutex" && l.excl)
+      && (dpqAccesses "process" ["currentWindowCounter"]).any (·.write)
+      && LunarVerif.C18.oneRegion (dpqAccesses "process" ["currentWindowCounter", "queue"])
+      && (dpqAccesses "process" ["currentWindowCounter", "queue"]).all
+           (fun a => a.locks.any fun l => l.name == "mutex" && l.excl)) = true := by
+  decide +kernel
 
 end LunarVerif.C10
